@@ -185,6 +185,8 @@ type FCtx struct {
 	Assumed  []string
 	loopOrd  map[token.Pos]int
 	callOrd  map[token.Pos]string
+	stmtOrd  map[token.Pos]string
+	badAnchors []string
 	retOrd   map[token.Pos]int
 	siteOrd  map[token.Pos]int
 	budgetPaths int
@@ -197,6 +199,9 @@ type FCtx struct {
 	LockChecks    bool
 	LockSweep     bool
 	AutoLocks     bool
+	embTarget     map[string]string
+	embSeen       map[string]bool
+	embTerms      []*Term
 	specAt        token.Pos // program point the spec clause being evaluated is attached to
 	AbsKeys       bool
 	inGlobalFact  bool
@@ -611,14 +616,40 @@ func structOf(t types.Type) *types.Struct {
 
 // embRef: the sub-object holding a struct-typed field (a struct stored by value inside a heap object).
 func (c *FCtx) embRef(owner types.Type, f *types.Var, ref *Term) *Term {
-	return App("emb$"+structKey(owner)+"."+f.Name(), SInt, ref)
+	name := "emb$" + structKey(owner) + "." + f.Name()
+	if c.embTarget == nil {
+		c.embTarget = map[string]string{}
+	}
+	c.embTarget[name] = structKey(f.Type())
+	return App(name, SInt, ref)
 }
 
-// embFacts: a sub-object is non-nil and is as old as its owner.
+// embFacts: a sub-object is non-nil and is as old as its owner; distinct fields (of any owners) that hold a struct
+// of the same type are distinct objects, and the same field of distinct owners too.
 func (c *FCtx) embFacts(state *State, er, ref *Term) {
 	a0 := Var("$alloc@pre", SInt)
 	state.assume(IGt(er, IntC(0)))
 	state.assume(Eq(ILt(ref, a0), ILt(er, a0)))
+	k := er.String()
+	if c.embSeen == nil {
+		c.embSeen = map[string]bool{}
+	}
+	first := !c.embSeen[k]
+	c.embSeen[k] = true
+	tgt := c.embTarget[er.Name]
+	for _, o := range c.embTerms {
+		if o.String() == k || c.embTarget[o.Name] != tgt {
+			continue
+		}
+		if o.Name != er.Name {
+			state.assume(Not(Eq(er, o)))
+		} else {
+			state.assume(Implies(Eq(er, o), Eq(ref, o.Args[0])))
+		}
+	}
+	if first {
+		c.embTerms = append(c.embTerms, er)
+	}
 }
 
 // loadField reads field fname of the struct object at ref (struct type st).
